@@ -302,6 +302,88 @@ def check_value_arg(v):
     return None
 
 
+PACK_NAMES = ['Ts', 'Args', 'Us']
+
+
+def gen_arg_list(rng):
+    """(source, expected): expected = list of ('type', tree, pack) | ('value', squashed text, pack)"""
+    n = rng.choice([1, 2, 3, 4, 5])
+    exp, texts = [], []
+    for i in range(n):
+        r = rng.random()
+        if r < 0.3:
+            nm = rng.choice(PACK_NAMES)
+            t = ('B', nm, False, False)
+            if rng.random() < 0.4:
+                t = rng.choice([('P', t, False, False), ('R', t), ('M', t), ('P', ('B', nm, True, False), False, False)])
+            exp.append(('type', t, True))
+            texts.append(' '.join(decl.print_decl(t, None)) + '...')
+        elif r < 0.75:
+            while True:
+                t = rich_type(rng, rng.choice([0, 1, 2, 3]))
+                if t is not None and not decl.is_void(t) or (t is not None and rng.random() < 0.3):
+                    break
+            exp.append(('type', t, False))
+            texts.append(' '.join(decl.print_decl(t, None)))
+        else:
+            v = rng.choice(VALUE_ARGS)
+            exp.append(('value', squash(v), False))
+            texts.append(v)
+    host = rng.choice(['Tmpl<%s> x;', 'void f(std::tuple<%s> a);', 'using U = ns::Box<%s>;', 'struct S { Holder<%s> m; };', 'typedef W<%s> x;'])
+    return host % ', '.join(texts), exp
+
+
+def first_spec(o):
+    """the first template specialization inside a parse result"""
+    import dataclasses
+    if isinstance(o, T.TemplateSpecialization):
+        return o
+    if dataclasses.is_dataclass(o):
+        for f in dataclasses.fields(o):
+            r = first_spec(getattr(o, f.name))
+            if r is not None:
+                return r
+    elif isinstance(o, list):
+        for x in o:
+            r = first_spec(x)
+            if r is not None:
+                return r
+    elif isinstance(o, dict):
+        for x in o.values():
+            r = first_spec(x)
+            if r is not None:
+                return r
+    return None
+
+
+def check_arg_list(src, exp):
+    try:
+        d = parse_string(src)
+    except (impl.CxxParseError, AssertionError) as e:
+        return "`%s` is rejected: %s" % (src, str(e)[:100])
+    sp = first_spec(d)
+    if sp is None or len(sp.args) != len(exp):
+        return "`%s`: %s template arguments reported, %d written" % (src, "no" if sp is None else len(sp.args), len(exp))
+    for i, (a, e) in enumerate(zip(sp.args, exp)):
+        if a.param_pack != e[2]:
+            return "`%s`: argument %d is reported with param_pack=%s" % (src, i + 1, a.param_pack)
+        if e[0] == 'value':
+            if not isinstance(a.arg, T.Value):
+                return "`%s`: argument %d (a non-type argument) is reported as the type `%s`" % (src, i + 1, a.arg.format())
+            if squash(a.arg.format()) != e[1]:
+                return "`%s`: argument %d is reported as the raw value `%s`" % (src, i + 1, a.arg.format())
+        else:
+            if isinstance(a.arg, T.Value):
+                return "`%s`: argument %d (a type-id) is reported as a raw value" % (src, i + 1)
+            try:
+                got = tree_of(a.arg)
+            except decl.Unrepresentable as ex:
+                return "`%s`: argument %d is reported with unexpected extras (%s)" % (src, i + 1, ex)
+            if not trees_equal(e[1], got):
+                return "`%s`: argument %d is reported as `%s`" % (src, i + 1, decl.show(got, None))
+    return None
+
+
 def search(ctx, boost=False):
     s = Search()
     rng = ctx.rng
@@ -335,6 +417,15 @@ def search(ctx, boost=False):
             ok = False
         if not ok:
             s.violations.append(dict(what="`%s`: expected %s" % (src, what), case=dict(kind='flag', source=src)))
+    # template argument lists: every argument keeps its own kind (type / raw value), its own tree and its own pack flag
+    for _ in range(ctx.scale(300, 6000) * (3 if boost else 1)):
+        case = gen_arg_list(rng)
+        s.evaluations += 1
+        s.count("argument list")
+        s.nontrivial.add(case[0])
+        msg = check_arg_list(*case)
+        if msg:
+            s.violations.append(dict(what=msg, case=dict(kind='arglist', source=case[0], expected=repr(case[1]))))
     for v in VALUE_ARGS:
         s.evaluations += 1
         s.count("value argument")
@@ -370,6 +461,9 @@ def replay(ctx, case):
                 except Exception:
                     ok = False
                 return [] if ok else ["`%s`: expected %s" % (src, what)]
+    if k == 'arglist':
+        msg = check_arg_list(case["source"], eval(case["expected"]))
+        return [msg] if msg else []
     if k == 'value':
         msg = check_value_arg(case["value"])
         return [msg] if msg else []
